@@ -5,7 +5,7 @@
    proved equal (Bridge.v) to the step regenerated from evaluate()/_split() on this run (Site.v). *)
 From Coq Require Import ZArith QArith List Bool.
 Require Import SkV.Lib.Base SkV.Lib.ZRange SkV.C01.Model SkV.C01.Gen SkV.C01.Bridge SkV.C01.Proofs.
-Require Import SkV.C07.Model SkV.C07.Site SkV.C07.Bridge SkV.C07.Cases SkV.C07.Proofs.
+Require Import SkV.C07.Model SkV.C07.Site SkV.C07.Bridge SkV.C07.Cases SkV.C07.Proofs SkV.C07.FitParams.
 Import ListNotations.
 Open Scope Z_scope.
 
@@ -13,7 +13,7 @@ Open Scope Z_scope.
    fit/update(y_train, X_train), predict(fh, X_test), fit on fold 0 or strategy refit) *)
 Theorem C07_site_step_is_model_step :
   forall XV tm yv xv respond cutoff_after metric st fhmin i tr s,
-  gen_step XV (y_at tm yv) (x_at XV tm xv) respond cutoff_after metric fhmin i (is_refit st) tr
+  gen_step XV (y_at tm yv) (x_at XV tm xv) respond cutoff_after metric None fhmin i (is_refit st) tr
            (fst s) (snd s) =
   fold_step XV tm yv xv respond cutoff_after metric st fhmin i tr s.
 Proof. exact bridge_step. Qed.
@@ -21,12 +21,67 @@ Print Assumptions C07_site_step_is_model_step.
 
 Theorem C07_site_metric_called_as_truth_then_forecast :
   forall XV tm yv xv respond cutoff_after metric st fhmin i tr s,
-  let '(r, tr') := gen_step XV (y_at tm yv) (x_at XV tm xv) respond cutoff_after metric fhmin i
-                            (is_refit st) tr (fst s) (snd s) in
+  let '(r, tr') := gen_step XV (y_at tm yv) (x_at XV tm xv) respond cutoff_after metric None fhmin
+                            i (is_refit st) tr (fst s) (snd s) in
   r_score r = metric (map yv (snd s)) (map snd (respond tr')) /\
   r_len r = Z.of_nat (length (fst s)) /\ r_cutoff r = cutoff_after tr'.
 Proof. exact bridge_scoring_order. Qed.
 Print Assumptions C07_site_metric_called_as_truth_then_forecast.
+
+(* ---- fit_params: "fitting ... on exactly that split's training window" with the SAME fit_params
+        in every fold -------------------------------------------------------------------------- *)
+
+(* the regenerated fold step hands the fit_params given to evaluate() to the fit call it makes *)
+Theorem C07_site_step_passes_fit_params :
+  forall XV tm yv xv respond cutoff_after metric fp st fhmin i tr s,
+  gen_step XV (y_at tm yv) (x_at XV tm xv) respond cutoff_after metric fp fhmin i (is_refit st) tr
+           (fst s) (snd s) =
+  fold_step_fp XV tm yv xv respond cutoff_after metric fp st fhmin i tr s.
+Proof. exact bridge_step_fp. Qed.
+Print Assumptions C07_site_step_passes_fit_params.
+
+(* every Fit event of the run carries the same fit_params, the ones given to evaluate(); the calls
+   are the honest history with those fit_params attached to every fit *)
+Theorem C07_every_fit_carries_the_fit_params :
+  forall XV tm yv xv respond cutoff_after metric fp sp st rows tr,
+  evaluate_fp XV tm yv xv respond cutoff_after metric fp sp st = Ok (rows, tr) ->
+  exists ss, splitter_splits sp = Ok ss /\ length rows = length ss /\
+    tr = map (with_fit_params fp) (history XV tm yv xv st (zmin_list (splitter_fh sp)) ss) /\
+    Forall (fun c => fit_params_of c = None \/ fit_params_of c = Some fp) tr.
+Proof. exact every_fit_carries_the_fit_params. Qed.
+Print Assumptions C07_every_fit_carries_the_fit_params.
+
+(* the run with fit_params fp IS the fit_params-free run for "the forecaster whose every fit receives
+   fp": every theorem below applies to its rows; without fit_params nothing changes *)
+Theorem C07_fit_params_run_is_honest_run_of_tagged_forecaster :
+  forall XV tm yv xv respond cutoff_after metric fp sp st,
+  evaluate_fp XV tm yv xv respond cutoff_after metric fp sp st =
+  match evaluate XV tm yv xv (respond_fp XV respond fp) (cutoff_fp XV cutoff_after fp) metric sp st with
+  | Ok (rows, tr) => Ok (rows, map (with_fit_params fp) tr)
+  | Err => Err
+  end.
+Proof. exact evaluate_fp_is_evaluate_of_tagged_forecaster. Qed.
+Print Assumptions C07_fit_params_run_is_honest_run_of_tagged_forecaster.
+
+Theorem C07_no_fit_params_is_plain_evaluate :
+  forall XV tm yv xv respond cutoff_after metric sp st,
+  evaluate_fp XV tm yv xv respond cutoff_after metric None sp st =
+  evaluate XV tm yv xv respond cutoff_after metric sp st.
+Proof. exact evaluate_fp_None. Qed.
+Print Assumptions C07_no_fit_params_is_plain_evaluate.
+
+(* sensitivity: handing fit_params to the first fit only is invisible with strategy="update" and
+   wrong for "refit" (regression C07-d): fold 1's fit event carries no fit_params, its score differs *)
+Theorem C07_fit_params_first_fold_only_refuted :
+  (forall XV tm yv xv respond cutoff_after metric fp fhmin ss i tr, 0 <= i ->
+     eval_folds_first_only XV tm yv xv respond cutoff_after metric fp UpdateS fhmin i tr ss =
+     eval_folds_fp XV tm yv xv respond cutoff_after metric fp UpdateS fhmin i tr ss) /\
+  map fit_params_of (snd ex_honest) = [Some (Some 5); None; Some (Some 5); None] /\
+  map fit_params_of (snd ex_first_only) = [Some (Some 5); None; Some None; None] /\
+  map (fun p => Qeq_bool (r_score (fst p)) (r_score (snd p)))
+      (combine (fst ex_honest) (fst ex_first_only)) = [true; false].
+Proof. exact (conj first_only_harmless_for_update first_only_refuted). Qed.
+Print Assumptions C07_fit_params_first_fold_only_refuted.
 
 (* one row per split of the splitter, in order; the forecaster receives exactly the honest sequence
    of calls; row k is computed from split k and the forecaster's answer after that sequence up to
